@@ -153,7 +153,13 @@ func (i *dbIter) Prev() bool {
 	i.forward = false
 	i.p.mu.RLock()
 	defer i.p.mu.RUnlock()
-	i.node = i.p.findLT(i.key)
+	if i.gen != i.p.gen {
+		// The DB has been reset since the last movement, the key is gone
+		// (its bytes may have been overwritten already).
+		i.node = 0
+	} else {
+		i.node = i.p.findLT(i.key)
+	}
 	return i.fill(true, false)
 }
 
